@@ -206,6 +206,13 @@ func sortedSet(l []string) string {
 	return encList(out)
 }
 
+// sortedMulti keeps multiplicities: the same text reported twice (a rule present in two lists) is part of the answer.
+func sortedMulti(l []string) string {
+	out := append([]string{}, l...)
+	sort.Strings(out)
+	return encList(out)
+}
+
 // engineRule produces a network rule line with features relevant for the lookup tables.
 func engineRule(g *Gen) string {
 	findCollisions()
@@ -439,7 +446,8 @@ func init() {
 			for _, rq := range reqs {
 				q := buildRequest(rq)
 				hosts = append(hosts, q.Hostname, q.SourceHostname)
-				got := sortedSet(matchAllTexts(e.MatchAll(q)))
+				gotTexts := matchAllTexts(e.MatchAll(q))
+				got := sortedSet(gotTexts)
 				var want []string
 				for _, r := range allRules {
 					if r.Match(q) {
@@ -452,7 +460,7 @@ func init() {
 				if got != "" {
 					hits++
 				}
-				out = append(out, got)
+				out = append(out, sortedMulti(gotTexts))
 			}
 			st.Add("requests", len(reqs))
 			st.Add("requests_with_match", hits)
@@ -507,6 +515,15 @@ func init() {
 					o := g.Intn(2)
 					ls[0].content = p[o] + "\n" + ls[0].content + p[1-o] + "\n"
 					reqs = append(reqs, Req{Kind: "host", Hostname: hs[0]}, Req{Kind: "host", Hostname: hs[1]}, Req{Kind: "host", Hostname: "x." + hs[1-o], DNSType: 1})
+				}
+				if i%4 == 1 {
+					// the same rule in two lists (or twice in one), with shortcuts just below, at and above the window length
+					// of the shortcut table: every copy in an indexed table is reported, with its own list id
+					h5 := Pick(g, []string{"ab.io", "a.com", "x1.de", "abc.io", "a.io", "ab.com", "abcd.io"})
+					t := Pick(g, []string{"||", "@@||"}) + h5 + "^" + Pick(g, []string{"", "", "$important", "$dnstype=A"})
+					ls[0].content += t + "\n"
+					ls[len(ls)-1].content += t + "\n"
+					reqs = append(reqs, Req{Kind: "host", Hostname: h5}, Req{Kind: "host", Hostname: "www." + h5, DNSType: 1})
 				}
 				if i%8 == 7 {
 					// names that are not punycode: raw UTF-8 in rules and requests (bytes are bytes for every table; the model
@@ -583,7 +600,7 @@ func init() {
 				for _, h := range res.HostRulesV6 {
 					v6 = append(v6, h.RuleText)
 				}
-				obs := sortedSet(matchAllTexts(res.NetworkRules)) + "/" + cls[:strings.Index(cls, ":")] + "/" + sortedSet(v4) + "/" + sortedSet(v6) + "/" + b01(matched)
+				obs := sortedMulti(matchAllTexts(res.NetworkRules)) + "/" + cls[:strings.Index(cls, ":")] + "/" + sortedMulti(v4) + "/" + sortedMulti(v6) + "/" + b01(matched)
 				// reference resolution by scanning every rule
 				if rq.Hostname != "" {
 					var wantNet []string
